@@ -64,7 +64,12 @@ for i in range(int(sys.argv[3])):
         term = ["pow", term, rng.choice([-2, -1, 2])]
     try:
         u = mdl.eval_real(term)
-        out.append([term, base64.b64encode(pickle.dumps(u, rng.choice([2, 3, 4, 5]))).decode()])
+        if i % 3 == 2:
+            # the JSON document an earlier run stored (the library's own encoder)
+            from measured.json import MeasuredJSONEncoder
+            out.append([term, json.dumps(u, cls=MeasuredJSONEncoder), "json"])
+        else:
+            out.append([term, base64.b64encode(pickle.dumps(u, rng.choice([2, 3, 4, 5]))).decode(), "pickle"])
     except Exception:
         pass
 print(json.dumps(out))
@@ -94,10 +99,10 @@ def run(ctx):
             ctx.count("histories_with_shuffled_import_order")
         specs.append({"seed": ctx.seed * 1000003 + 7 * i + 11, "steps": rng.randint(5, 40), "probes": PROBES, "base_width": 10, "order": order,
                       # every fifth history also defines new fundamental dimensions at run time (which re-keys
-                      # every known dimension); those histories load no foreign pickles, whose dimension tuples
-                      # were written for the shipped width
+                      # every known dimension); the foreign pickles and JSON documents loaded there were written
+                      # for the shipped number of fundamental dimensions (stored data outlives such a declaration)
                       "define_dimension": i % 5 == 0,
-                      "foreign_pickles": blobs[3 * i:3 * i + 3] if i % 5 else []})
+                      "foreign_pickles": blobs[3 * i:3 * i + 3]})
     with ThreadPoolExecutor(max_workers=14) as ex:
         results = list(ex.map(run_worker, specs))
     panel = {}   # probe term -> {dimension exponents (as tuple) -> first seed}
